@@ -99,7 +99,13 @@ def dropAxis (ax : Nat) (c : Chunks) : Option Chunks := if ax < c.length then so
 
 def keepAxis (ax : Nat) (c : Chunks) : Option Chunks := if ax < c.length then some (c.set ax [1]) else none
 
-def newAxis (ax : Nat) (c : Chunks) : Option Chunks := if ax ≤ c.length then some (c.take ax ++ [1] :: c.drop ax) else none
+def nparts (c : Chunks) : Nat := (c.map List.length).foldl (· * ·) 1
+
+/-- `map_blocks(np.expand_dims, new_axis=ax)`: a new single-chunk axis of length 1, all other chunks kept.
+    (`da.expand_dims` is a `reshape` and belongs to C24; since 791783e it replaces an EMPTY multi-block array by a fresh
+    single-chunk empty array, so it is not what is modelled here.) -/
+def newAxis (ax : Nat) (c : Chunks) : Option Chunks :=
+  if ax ≤ c.length then some (c.take ax ++ [1] :: c.drop ax) else none
 
 /-- `unify_chunks` over the non-concatenated axes (distinct symbols on the concatenation axis) -/
 def concatArgs (ax : Nat) (ca cb : Chunks) : List UArg :=
